@@ -345,7 +345,8 @@ def eval_adverb_scan_over(f, a, op, backend):
             return np_backend.subtract.accumulate(a)
         elif safe_eq(op.a, '*') and hasattr(np_backend.multiply, 'accumulate'):
             return np_backend.multiply.accumulate(a)
-        elif safe_eq(op.a, '%') and hasattr(np_backend.divide, 'accumulate'):
+        elif safe_eq(op.a, '%') and hasattr(np_backend.divide, 'accumulate') and not _has_zero(a[1:], backend):
+            # a zero divisor makes Divide :undefined, which the ufunc does not know (it yields inf / nan)
             return np_backend.divide.accumulate(a)
     r = list(itertools.accumulate(a, f))
     return backend.kg_asarray(r)
